@@ -173,7 +173,7 @@ static void oneCase(uint64_t seed, long caseNo) {
     // ---- newton: M udot + ~G lambda + f_inertial = f_applied
     {
         Vector res; matter.calcResidualForce(s, mobF, bodyF, d.udot, d.lambda, res);
-        vh::P("newton", zeroG ? std::string("zeroG.newton") : icls + ".newton", finite ? vmax(res) / fscale : NAN, 1e-9);
+        vh::P("newton", zeroG ? std::string(mmax(G) == 0 ? "zeroG.exact.newton" : "zeroG.newton") : icls + ".newton", finite ? vmax(res) / fscale : NAN, 1e-9);
         if (std::getenv("CEQ_DEBUG") && (!finite || !(vmax(res) / fscale <= 1e-9))) {
             Vector Mu, Gtl; matter.multiplyByM(s, d.udot, Mu); matter.multiplyByGTranspose(s, d.lambda, Gtl);
             Vector r2 = Mu + Gtl - feff;
@@ -308,7 +308,9 @@ static void degenerateOne(int which) {
     vh::I("chk").i(which).s("degenerate").emit(); vh::O("chk").i(1).emit();
     vh::D(which == 0 ? "degenerate.roundoffG" : "degenerate.exactZeroG");
     const bool finite = !std::isnan(maxAbs(s.getUDot())) && !std::isnan(maxAbs(s.getMultipliers()));
-    vh::P("newton", "zeroG.newton", finite ? maxAbs(res) / std::max(1.0, maxAbs(r0)) : NAN, 1e-9);
+    // roundoff-level G: known finding F-C08-1 (key zeroG.newton); exactly zero G: fixed in /repo (FactorQTZ zero-fills
+    // the solution when rank==0) and must pass (key zeroG.exact.newton)
+    vh::P("newton", which == 0 ? "zeroG.newton" : "zeroG.exact.newton", finite ? maxAbs(res) / std::max(1.0, maxAbs(r0)) : NAN, 1e-9);
 }
 
 int main(int argc, char** argv) {
